@@ -319,6 +319,62 @@ func c17Translate(c *core.Ctx, ev *eval.Evaluator) {
 		}
 	}
 	c.Ob("R5/Translate/windows-and-length", len(win) == 0, fn.Pos(), "%s", first(win, 6))
+	// a codon's product does not depend on the codons around it: every IUPAC codon after and before each of a few
+	// (thorough: all 64) unambiguous codons, in both modes
+	companions := []string{"AAC", "TTG"}
+	if c.Tier == "thorough" {
+		companions = nil
+		for _, a := range "ACGT" {
+			for _, b := range "ACGT" {
+				for _, d := range "ACGT" {
+					companions = append(companions, string([]rune{a, b, d}))
+				}
+			}
+		}
+	}
+	var ctx []string
+	np := 0
+	for _, u := range companions {
+		ua, _ := oracle.TranslateIUPAC(u)
+		for _, cod := range oracle.AllCodons() {
+			aa, ok := oracle.TranslateIUPAC(cod)
+			for _, strict := range []bool{false, true} {
+				for _, order := range []int{0, 1} {
+					seq, want := u+cod, string(ua)
+					if order == 1 {
+						seq = cod + u
+					}
+					x := "X"
+					if ok {
+						x = string(aa)
+					}
+					if order == 0 {
+						want += x
+					} else {
+						want = x + want
+					}
+					got, isErr, decided := call(seq, strict)
+					np++
+					if !decided {
+						continue
+					}
+					switch {
+					case !ok && strict:
+						if !isErr {
+							ctx = append(ctx, fmt.Sprintf("%s strict -> %q without error (%s has more than one product)", seq, got, cod))
+						}
+					case isErr || got != want:
+						ctx = append(ctx, fmt.Sprintf("%s strict=%v -> %q err=%v, want %q", seq, strict, got, isErr, want))
+					}
+				}
+			}
+			if len(ctx) > 40 {
+				break
+			}
+		}
+	}
+	c.Count("codon_pairs_evaluated", np)
+	c.Ob("R5/Translate/codon-product-independent-of-neighbours", len(ctx) == 0, fn.Pos(), "%s", first(ctx, 6))
 }
 
 func c17Strings(c *core.Ctx, ev *eval.Evaluator, tabs *Tables) {
